@@ -342,34 +342,41 @@ example : (runText "median({3, 1/2, -4})").render = "ok 1/2     (0.5)\n" ∧
 /-- **`range(lo, hi, step)` on operands of ANY kind** (ints, Fractions, floats, mixed).  `PIPE_range_step`
     covers exact operands delivered canonically; with a float the loop's `curr + step` is a floating-point
     addition (then `simplify_type`: an integral float becomes an int), so the elements are no longer
-    `lo + k·step`.  What is PROVED here, for every kind:
+    `lo + k·step`, and a step too small to change `curr` is rejected by the no-progress guard of fix efcc27a
+    (`range(1e16, 1e16+4, 0.5)`: FunctionArgError, where the loop used to run forever).  What is PROVED here,
+    for every kind:
 
     1. through `dispatch` over the generated registry, `ka_range` is the dispatch-free loop `numKaRange` —
        the guards compare exactly (a float is compared by its exact value), the next element is Ka's `+` on the
-       kinds at hand (`Num.binop .add`: the registered `operator.add`, then `simplify_type`), the failure
-       classes are the same (FunctionArgError for `step ≤ 0` or `lo > hi`; an overflowing float addition is the
-       OverflowError of `+`);
+       kinds at hand (`Num.binop .add`: the registered `operator.add`, then `simplify_type`), each round checks
+       `curr < next` exactly, the failure classes are the same.  No side condition any more: the model's two size
+       refusals are part of `numKaRange` (clause 5 says when they cannot occur);
     2. when it returns a list, that list is THE list described by `RangeTail`: it starts with `lo` itself, each
-       element does not exceed `hi` (exactly), each next element is the previous one `+ step` as Ka adds them,
-       and the element after the last exceeds `hi`; `0 < step` and `lo ≤ hi` held;
+       element does not exceed `hi` (exactly), each next element is the previous one `+ step` as Ka adds them and
+       is STRICTLY larger (new with the guard), and the element after the last exceeds `hi`; `0 < step` and
+       `lo ≤ hi` held;
     3. if every addition along the way happens to be exact in value — always the case for exact operands,
        canonical or not (`binop_add_exact`); for floats e.g. binary fractions of moderate size — the VALUES are
        the exact fragment's `Arr.kaRange` on the operands' values, i.e. `lo + k·step` for `k ≤ ⌊(hi−lo)/step⌋`
        (`C12_range_step`);
-    4. `step ≤ 0` or `lo > hi` is rejected, for every kind, whatever the size.
+    4. `step ≤ 0` or `lo > hi` is rejected, for every kind, whatever the size;
+    5. (NEW clause — the model changed: it follows the code after efcc27a) every failure is one of:
+       OverflowError out of a `+`; FunctionArgError — and then a guard failed or the loop reached, after rounds
+       that all advanced, an element `c ≤ hi` with `c + step` not larger than `c` (`RangeStuck`), which needs a
+       float (`lo` and `step` exact: impossible); or the model's refusal `unmodelled "huge range"`.  The model
+       never answers `diverges` for `range` (it did before, where the code looped or returned a longer list).
+       With `lo` and `step` exact (any `hi`) and the nominal length within `Eval.maxRange`, `range` RETURNS a
+       list: neither refusal occurs.
 
-    What is only CORRESPONDED (stream `arr`, and the whole-program stream): the bits of each floating-point
-    sum (`Float` addition is opaque to the kernel, so whether a given float addition is exact cannot be decided
-    inside Lean), and that the model's iteration bound `⌊(hi−lo)/step⌋ + 3` is enough: with floats it is NOT
-    always (rounding can make the loop advance by less than `step`: the model then answers `diverges` where
-    the code returns a longer list — reported as a model mismatch, see NOTES).
-    Side condition: below the model's size bound `Eval.maxRange`. -/
+    What is only CORRESPONDED (stream `arr`, and the whole-program streams): the bits of each floating-point
+    sum (`Float` addition is opaque to the kernel, so whether a given float addition is exact, or makes
+    progress, cannot be decided inside Lean).  With a float among the operands the number of rounds is not a
+    function of `(hi−lo)/step` (`range(2251799813685248.5, 2251799813685268.5, 0.7)` has 41 elements, the
+    nominal 29 + 3 rounds were not enough for the model before this change); the model allows `maxRange`
+    elements there and declines beyond — it no longer claims `diverges`. -/
 theorem PIPE_range_step_float (lo hi step : Num) :
-    (((hi.toRat - lo.toRat) / step.toRat).floor.toNat + 3 ≤ maxRange →
-      dispatchTop "range" [.num lo, .num hi, .num step] [] =
-        match numKaRange lo hi step with
-        | .ok xs => .ok (.arr (xs.map Val.num))
-        | .error e => .error (.err e)) ∧
+    (dispatchTop "range" [.num lo, .num hi, .num step] [] =
+        (numKaRange lo hi step).map (fun xs => .arr (xs.map Val.num))) ∧
     (∀ xs, numKaRange lo hi step = .ok xs →
       Num.cmpLt (.int 0) step = true ∧ Num.cmpLe lo hi = true ∧ RangeTail hi step lo xs ∧
       (∀ ys, RangeTail hi step lo ys → ys = xs) ∧
@@ -377,17 +384,25 @@ theorem PIPE_range_step_float (lo hi step : Num) :
         Arr.kaRange lo.toRat hi.toRat step.toRat = .ok (xs.map Num.toRat)) ∧
       (lo.isExact = true → step.isExact = true →
         Arr.kaRange lo.toRat hi.toRat step.toRat = .ok (xs.map Num.toRat))) ∧
-    ((Num.cmpLt (.int 0) step = false ∨ Num.cmpLe lo hi = false) → numKaRange lo hi step = .error .funArg) := by
-  refine ⟨fun hsz => dispatch_kaRange_num _ lo hi step hsz, ?_, ?_⟩
+    ((Num.cmpLt (.int 0) step = false ∨ Num.cmpLe lo hi = false) → numKaRange lo hi step = .error (.err .funArg)) ∧
+    ((∀ e, numKaRange lo hi step = .error e →
+        e = .err .overflow ∨ e = .unmodelled "huge range" ∨
+        (e = .err .funArg ∧ (Num.cmpLt (.int 0) step = false ∨ Num.cmpLe lo hi = false ∨ RangeStuck hi step lo))) ∧
+      (lo.isExact = true → step.isExact = true → Num.cmpLt (.int 0) step = true → ¬ RangeStuck hi step lo) ∧
+      (lo.isExact = true → step.isExact = true → Num.cmpLt (.int 0) step = true → Num.cmpLe lo hi = true →
+        ((hi.toRat - lo.toRat) / step.toRat).floor.toNat + 3 ≤ maxRange → ∃ xs, numKaRange lo hi step = .ok xs)) := by
+  refine ⟨dispatch_kaRange_num _ lo hi step, ?_, ?_, ?_, ?_, ?_⟩
   · intro xs h
     unfold numKaRange at h
     cases h0 : Num.cmpLt (.int 0) step with
-    | false => simp [h0] at h
+    | false => simp [h0, raise] at h
     | true =>
       cases h1 : Num.cmpLe lo hi with
-      | false => simp [h0, h1] at h
+      | false => simp [h0, h1, raise] at h
       | true =>
         simp only [h0, h1, Bool.not_true, Bool.false_eq_true, if_false] at h
+        split at h
+        · cases h
         obtain ⟨tail, hx, ht⟩ := numRangeLoop_spec hi step _ lo [] xs h
         simp only [List.reverse_nil, List.nil_append] at hx
         have hx' : tail = xs := hx.symm
@@ -423,21 +438,50 @@ theorem PIPE_range_step_float (lo hi step : Num) :
   · intro h
     unfold numKaRange
     rcases h with h | h
-    · simp [h]
-    · cases h0 : Num.cmpLt (.int 0) step <;> simp [h]
+    · simp [h, raise]
+    · cases h0 : Num.cmpLt (.int 0) step <;> simp [h, raise]
+  · intro e h
+    unfold numKaRange at h
+    cases h0 : Num.cmpLt (.int 0) step with
+    | false =>
+      simp only [h0, Bool.not_false, if_true, raise, Except.error.injEq] at h
+      exact Or.inr (Or.inr ⟨h.symm, Or.inl rfl⟩)
+    | true =>
+      cases h1 : Num.cmpLe lo hi with
+      | false =>
+        simp only [h0, h1, Bool.not_true, Bool.not_false, Bool.false_eq_true, if_false, if_true, raise, Except.error.injEq] at h
+        exact Or.inr (Or.inr ⟨h.symm, Or.inr (Or.inl rfl)⟩)
+      | true =>
+        simp only [h0, h1, Bool.not_true, Bool.false_eq_true, if_false] at h
+        split at h
+        · simp only [Except.error.injEq] at h
+          exact Or.inr (Or.inl h.symm)
+        · rcases numRangeLoop_error hi step _ lo [] e h with h2 | ⟨h2, h3⟩ | h2
+          · exact Or.inl h2
+          · exact Or.inr (Or.inr ⟨h2, Or.inr (Or.inr h3)⟩)
+          · exact Or.inr (Or.inl h2)
+  · intro hl hs hp hst
+    exact hst.not_exact hl hs hp
+  · intro hl hs hp hle hsz
+    exact numKaRange_exact_ok lo hi step hl hs hp hle hsz
 
-/-- non-vacuity: exact but non-canonical operands (`4/2` as a Fraction) satisfy every hypothesis of clause 3,
+/-- non-vacuity: exact but non-canonical operands (`4/2` as a Fraction) satisfy every hypothesis of clauses 3 and 5,
     and the size condition is decidable on concrete operands -/
 example : (Num.frac (4/2)).isExact = true ∧ (Num.frac (1/2)).isExact = true ∧
+    Num.cmpLt (.int 0) (Num.frac (1/2)) = true ∧ Num.cmpLe (Num.frac (4/2)) (Num.int 10) = true ∧
     (((Num.int 10).toRat - (Num.frac (4/2)).toRat) / (Num.frac (1/2)).toRat).floor.toNat + 3 ≤ maxRange := by
-  refine ⟨rfl, rfl, ?_⟩
-  decide +kernel
+  refine ⟨rfl, rfl, ?_, ?_, ?_⟩ <;> decide +kernel
 
 /-- the dispatch-free loop on exact operands, evaluated by the kernel -/
 example : (numKaRange (.int 1) (.int 3) (.frac (1/2))).toOption.map (·.map Num.render)
       = some ["i:1", "q:3/2", "i:2", "q:5/2", "i:3"] ∧
-    (match numKaRange (.int 1) (.int 3) (.int 0) with | .error .funArg => true | _ => false) = true := by
+    (match numKaRange (.int 1) (.int 3) (.int 0) with | .error (.err .funArg) => true | _ => false) = true := by
   constructor <;> decide +kernel
+
+/-- the no-progress failure exists as a shape (a `+` that returns its left operand); with floats it is
+    `1e16 + 0.5 == 1e16`, which only the correspondence can show (opaque `Float`) -/
+example (hi step c : Num) (h1 : Num.cmpLe c hi = true) (h2 : Num.binop .add c step = .ok c) : RangeStuck hi step c :=
+  .here c c h1 h2 (by simp [Num.cmpLt])
 
 /-! ## C12: aggregates on arrays of same-dimension quantities -/
 
